@@ -141,6 +141,11 @@ def check_unfinished(m, res, where):
         return
     if r is not False or fin is not False:
         res["violations"].append(V("unfinished-until-termination", None, {"results_is_False": r is False, "has_model_finished": fin}, "False / False", where=where))
+    # a user inspecting the daily tables between two calls must not change what the later calls report
+    try:
+        m.get_water_flux(), m.get_water_storage(), m.get_crop_growth()
+    except Exception as e:  # noqa: BLE001
+        res["violations"].append(V("getters-after-call", None, repr(e), "no exception", where=where))
 
 
 def check_final(m, ref, res, where):
@@ -152,6 +157,16 @@ def check_final(m, ref, res, where):
         res["violations"].append(V("summary-after-final-call", None, False, "summary table", where=where))
         return
     d = compare_all(tables(m), ref.tables)
+    if d is None:
+        # ... and the tables the PUBLIC getters hand out (not only the model's internal arrays)
+        import numpy as np
+        for nm, get in (("flux", m.get_water_flux), ("storage", m.get_water_storage), ("growth", m.get_crop_growth)):
+            a = np.asarray(getattr(get(), "values", get()), dtype=float)
+            b = np.asarray(ref.tables[nm], dtype=float)
+            if a.shape != b.shape or np.nan_to_num(a).tobytes() != np.nan_to_num(b).tobytes():
+                ne = np.argwhere(np.nan_to_num(a) != np.nan_to_num(b)) if a.shape == b.shape else []
+                d = {"table": nm + " (public getter)", "row": int(ne[0][0]) if len(ne) else None, "col": int(ne[0][1]) if len(ne) else None}
+                break
     if d is not None:
         res["violations"].append(V("final-tables-equal-uninterrupted-run", d.get("row"), d, "bitwise equal", where=where, sig=["final", d.get("table"), d.get("col")]))
     res["witness"]["final_tables_compared"] = res["witness"].get("final_tables_compared", 0) + 1
